@@ -113,6 +113,52 @@ pub mod lir {
         /*@ARM_INTCMP@*/
         /*@ARM_FLOATCMP@*/
         /*@ARM_ASSIGN@*/
+        /*@ARM_WRITE@*/
+        /*@ARM_READ@*/
+        /*@ARM_OFFSET@*/
+        /*@ARM_COPY@*/
+
+        /// recording stand-in for eval::Memory (the real one is C20-U3): what the arm asked of it
+        #[derive(Clone, Copy, Debug, PartialEq, Eq)]
+        pub enum MemOp {
+            OffsetBy { p: usize, offset: usize, result: usize },
+            Write { p: usize, bytes: [u8; 8], len: usize },
+            Read { p: usize, size: usize },
+            Copy { to: usize, from: usize, size: usize },
+        }
+        pub struct Memory {
+            pub op: Option<MemOp>,
+            pub n_ops: usize,
+            /// content handed out by read_slice
+            pub data: [u8; 8],
+        }
+        impl Memory {
+            fn record(&mut self, op: MemOp) {
+                self.op = Some(op);
+                self.n_ops += 1;
+            }
+            pub fn offset_by(&mut self, p: usize, offset: usize) -> usize {
+                let result = p.wrapping_mul(31).wrapping_add(offset).wrapping_add(7);
+                self.record(MemOp::OffsetBy { p, offset, result });
+                result
+            }
+            pub fn write(&mut self, p: usize, val: &[u8]) {
+                let mut bytes = [0u8; 8];
+                let mut i = 0;
+                while i < 8 && i < val.len() {
+                    bytes[i] = val[i];
+                    i += 1;
+                }
+                self.record(MemOp::Write { p, bytes, len: val.len() });
+            }
+            pub fn read_slice(&mut self, p: usize, size: usize) -> &[u8] {
+                self.record(MemOp::Read { p, size });
+                &self.data[..size]
+            }
+            pub fn copy(&mut self, to: usize, from: usize, size: usize) {
+                self.record(MemOp::Copy { to, from, size });
+            }
+        }
 
         /*@FN_EVAL_OPERAND@*/
 
